@@ -14,13 +14,13 @@ import hmac
 import random
 import re
 import time
-from binascii import hexlify
+from binascii import Error as _Base64Error, hexlify
 from hashlib import md5
 
 from zope.interface import Interface, implementer
 
 from twisted.cred import error
-from twisted.cred._digest import calcHA1, calcHA2, calcResponse
+from twisted.cred._digest import algorithms, calcHA1, calcHA2, calcResponse
 from twisted.python.compat import nativeString, networkString
 from twisted.python.deprecate import deprecatedModuleAttribute
 from twisted.python.randbytes import secureRandom
@@ -151,6 +151,17 @@ class DigestedCredentials:
         algo = self.fields.get("algorithm", b"md5").lower()
         qop = self.fields.get("qop", b"auth")
 
+        if (
+            uri is None
+            or algo not in algorithms
+            or qop == b"auth-int"
+            or (algo == b"md5-sess" and cnonce is None)
+        ):
+            # No digest-uri, an unknown algorithm, the unsupported auth-int
+            # quality of protection or md5-sess without a cnonce: such a
+            # response can never be correct.
+            return False
+
         expected = calcResponse(
             calcHA1(algo, self.username, self.realm, password, nonce, cnonce),
             calcHA2(algo, self.method, uri, qop, None),
@@ -178,6 +189,17 @@ class DigestedCredentials:
         nc = self.fields.get("nc")
         algo = self.fields.get("algorithm", b"md5").lower()
         qop = self.fields.get("qop", b"auth")
+
+        if (
+            uri is None
+            or algo not in algorithms
+            or qop == b"auth-int"
+            or (algo == b"md5-sess" and cnonce is None)
+        ):
+            # No digest-uri, an unknown algorithm, the unsupported auth-int
+            # quality of protection or md5-sess without a cnonce: such a
+            # response can never be correct.
+            return False
 
         expected = calcResponse(
             calcHA1(algo, None, None, None, nonce, cnonce, preHA1=digestHash),
@@ -316,7 +338,10 @@ class DigestCredentialFactory:
             clientip = clientip.encode("ascii")
 
         # Verify the key
-        key = base64.b64decode(opaqueParts[1])
+        try:
+            key = base64.b64decode(opaqueParts[1])
+        except (TypeError, _Base64Error):
+            raise error.LoginFailed("Invalid response, invalid opaque value")
         keyParts = key.split(b",")
 
         if len(keyParts) != 3:
@@ -377,7 +402,10 @@ class DigestCredentialFactory:
         auth = {}
         for key, bare, quoted in parts:
             value = (quoted or bare).strip()
-            auth[nativeString(key.strip())] = value
+            try:
+                auth[nativeString(key.strip())] = value
+            except UnicodeError:
+                raise error.LoginFailed("Invalid response, invalid field name")
 
         username = auth.get("username")
         if not username:
